@@ -140,12 +140,12 @@ type scanObs struct {
 	HasTarget bool   `json:"has_target,omitempty"`
 	Target    []byte `json:"target,omitempty"`
 	Y         []obs  `json:"yielded"`
-	Complete  bool   `json:"complete"`         // iterated until Valid()==false
-	Lo        int    `json:"lo"`               // history positions <= Lo must be visible
-	Hi        int    `json:"hi"`               // only history positions <= Hi may be visible
-	Mutable   bool   `json:"mutable"`          // table was mutable when the iterator was created
-	WF        string `json:"wf,omitempty"`     // accessor inconsistency found while collecting
-	Via       string `json:"via,omitempty"`    // "raw" | "adapter"
+	Complete  bool   `json:"complete"`          // iterated until Valid()==false
+	Lo        int    `json:"lo"`                // history positions <= Lo must be visible
+	Hi        int    `json:"hi"`                // only history positions <= Hi may be visible
+	Mutable   bool   `json:"mutable"`           // table was mutable when the iterator was created
+	WF        string `json:"wf,omitempty"`      // accessor inconsistency found while collecting
+	Via       string `json:"via,omitempty"`     // "raw" | "adapter"
 	Overrun   bool   `json:"overrun,omitempty"` // more positions than entries ever inserted
 	// Positioned: Valid() right after SeekToFirst/Seek/SeekToLast
 	Positioned bool `json:"positioned"`
